@@ -91,8 +91,13 @@ def run(tier):
         from bec2format.bec2file import InitCustKeyAuthBlock as _IC, UpdateAuthBlock as _UP, InitEccAuthBlock as _IE
         napp = 0
         for script in ("create_bec2file_with_cust_key.py", "create_bec2file_with_ec_key.py"):
-            with contextlib.redirect_stdout(io.StringIO()):
-                ns = runpy.run_path(os.path.join(REPO, "appnotes", script))
+            try:
+                with contextlib.redirect_stdout(io.StringIO()):
+                    ns = runpy.run_path(os.path.join(REPO, "appnotes", script))
+            except Exception as e:                               # noqa: BLE001 -- the shipped example itself fails
+                rep.violation("C02:appnote-flow-raised:" + script, "the documented example %s raised %s: %s" % (script, type(e).__name__, e), {"script": script, "exc": L.exc_info(e)})
+                seams.take()
+                continue
             seams.take()
             bec = ns["bec2"]
             metas = []
